@@ -17,7 +17,7 @@ import vlib
 WORKER = os.path.join(vlib.ROOT, "tools", "hist_worker.py")
 POOL = [("multi_custom", None), ("ew_dag", None), ("lut_heavy", None), ("single:logistic", None), ("single:tanh", None), ("single:lrelu", None), ("single:hswish", None),
         ("conv_chain", None), ("diamond", None), ("mixed_cpu", None), ("single:conv", None), ("single:add", None),
-        ("single:softmax", None), ("conv_chain_big", None), ("single:fc", None), ("single:mean", None)]
+        ("single:softmax", None), ("conv_chain_big", None), ("single:pad_bc", None), ("single:pad", None), ("lut_mixed", None), ("single:fc", None), ("single:mean", None)]
 ACCS = ["ethos-u65-256", "ethos-u55-128", "ethos-u65-512", "ethos-u55-64"]
 
 
@@ -50,7 +50,7 @@ def run_history(steps, hashseed="0", tag=""):
 
 def norm(step):
     """the (model, options) a step denotes, independent of the entry point"""
-    if step["entry"] in ("convert", "convert_bytes"):
+    if step["entry"] in ("convert", "convert_bytes", "convert_bytes_ro"):
         return (step["family"], step["seed"], ("--accelerator-config", "ethos-u65-256"))
     a = list(step.get("args", []))
     if not a:
@@ -73,13 +73,17 @@ def run(tier):
     histories.append([st("single:logistic", 1), st("single:logistic", 2), st("single:tanh", 3), st("single:logistic", 1)])
     histories.append([st("conv_chain", 4, "ethos-u55-128"), st("conv_chain", 4, "ethos-u65-512"), st("conv_chain", 4, "ethos-u55-128")])
     histories.append([st("single:conv", 5, entry="convert_bytes"), st("single:conv", 5, entry="convert"), st("single:conv", 5)])
+    for sd in (1, 2):     # the same caller buffer compiled twice, and an immutable buffer (constants edited in place by a rewrite)
+        histories.append([st("single:pad_bc", sd, entry="convert_bytes"), st("single:pad_bc", sd, entry="convert_bytes"),
+                          st("single:pad_bc", sd, entry="convert_bytes_ro"), st("single:pad_bc", sd, entry="convert")])
+    histories.append([st("lut_mixed", 1, entry="convert_bytes"), st("lut_mixed", 1, entry="convert_bytes_ro"), st("lut_mixed", 1)])
     while len(histories) < nh:
         n = rng.randrange(2, 6)
         h = []
         for _ in range(n):
             fam = rng.choice(POOL)[0]
             sd = rng.randrange(1, 5)
-            entry = rng.choice(["main", "main", "main", "convert", "convert_bytes"])
+            entry = rng.choice(["main", "main", "main", "convert", "convert_bytes", "convert_bytes_ro"])
             acc = rng.choice(ACCS + [None]) if entry == "main" else None
             h.append(st(fam, sd, acc, entry))
         if rng.random() < 0.5:
@@ -117,6 +121,11 @@ def run(tier):
                             "step %d (%s via %s) of a %d-step history %s: solo %s/%s, in history %s/%s %s" % (
                                 i, s["family"], s["entry"], len(h), kind, want.get("status"), (want.get("sha256") or "")[:10],
                                 r.get("status"), (r.get("sha256") or "")[:10], r.get("exception") or "")))
+            elif r.get("input_changed"):
+                bad.append(({"kind": "caller_buffer_modified", "entry": s["entry"], "position": i},
+                            {"history": h, "step": i},
+                            "step %d (%s via %s): the compilation modified the caller's model buffer, so compiling it again "
+                            "compiles a different model" % (i, s["family"], s["entry"])))
             elif s["entry"] == "main" and want.get("summary") != r.get("summary"):
                 bad.append(({"kind": "summary_differs", "entry": s["entry"], "position": i},
                             {"history": h, "step": i, "solo": want.get("summary"), "in_history": r.get("summary")},
